@@ -57,9 +57,12 @@ func NewPoller(d Diode, opts ...PollerConfigOption) *Poller {
 // If the context is done, then nil will be returned.
 func (p *Poller) Next() GenericDataType {
 	for {
+		// Look at the context before polling: everything set before the
+		// cancellation must still be returned.
+		done := p.isDone()
 		data, ok := p.Diode.TryNext()
 		if !ok {
-			if p.isDone() {
+			if done {
 				return nil
 			}
 
